@@ -175,6 +175,10 @@ fn run<S: Fl>(ctx: &mut Ctx) {
     finite!("m3", 9, m3);
     finite!("m4", 16, m4);
     finite!("q", 4, |c: &[S]| Quaternion::new(c[0], c[1], c[2], c[3]));
+    finite!("v1", 1, |c: &[S]| Vector1::new(c[0]));
+    finite!("p1", 1, |c: &[S]| Point1::new(c[0]));
+    finite!("p2", 2, |c: &[S]| Point2::new(c[0], c[1]));
+    finite!("p3", 3, |c: &[S]| Point3::new(c[0], c[1], c[2]));
     {
         // points implement Array::is_finite too
         let a = base::<S>(3);
